@@ -626,7 +626,7 @@ func main() {
 			if t == "thorough" {
 				return 2400
 			}
-			return 420
+			return 900
 		},
 	})
 }
